@@ -108,6 +108,7 @@ def _run_task(task):
     while ex.worklist and res['paths'] + res['aborted'] < tp['chunk_paths'] and time.time() - t0 < tp['chunk_s']:
         prefix = ex.worklist.pop()
         libstate.restore()                   # every path starts from the library's import-time process state
+        core.ALLOC_LIMIT[0] = None
         ex.reset_path(prefix)
         ctx = SymCtx(cfg, ex)
         status = 'done'
